@@ -1,8 +1,8 @@
-/* PUBLIC REAL: changeRowReal(int i, lprow) (ISROW) / changeColReal(int i, lpcol).  Types via _rangeTypeReal => REQ_INFTY. */
+/* PUBLIC REAL: changeRowReal(int i, lprow) (ISROW) / changeColReal(int i, lpcol).
+ * Types: classification of the new RATIONAL sides/bounds, any admissible INFTY (see k_pub_side2.h). */
 void w_lpmod(PARAMS)
 REQ_STATE
 REQ_CONSISTENT
-REQ_INFTY
 __CPROVER_requires(0 <= i && i < DIM && FINITE(v1) && FINITE(v2) && FINITE(v3))
 __CPROVER_requires(!INR(g_k, NTYPES) || v_old == TYPES[g_k])
 __CPROVER_assigns(ASSIGNS_GHOSTS, ARR(TYPES))
